@@ -205,7 +205,8 @@ pub fn gen_history(rng: &mut Rng, justified: bool) -> (Vec<Sx>, Vec<Sx>, String)
     let mut ops: Vec<Sx> = vec![];
     let mut nadd = 0u64;
     let mut jn = 0u64;
-    let motif = rng.below(8);
+    let motif = rng.below(10);
+    let mut skip_random = false;
     let mut add = |t: Sx, terms: &mut Vec<Sx>, ops: &mut Vec<Sx>, nadd: &mut u64| -> u64 {
         let k = match terms.iter().position(|x| *x == t) { Some(k) => k, None => { terms.push(t); terms.len() - 1 } };
         ops.push(lst(vec![sym("add"), num(k as u64)])); *nadd += 1; *nadd - 1
@@ -265,7 +266,9 @@ pub fn gen_history(rng: &mut Rng, justified: bool) -> (Vec<Sx>, Vec<Sx>, String)
             let (big_v, ar) = *rng.pick(&[(1u64, 3usize), (0, 2), (2, 4)]);
             let base: Vec<u64> = (1..=ar as u64).collect();
             let leaf = |v: u64, p: &Vec<u64>| rt(v, p.iter().map(|s| slot_arg(*s)).collect(), vec![]);
-            let mut sw = base.clone(); sw.swap(0, 1);
+            let mut sw = base.clone();
+            // the symmetry carried over: a transposition, or (arity >= 3) a 3-cycle / the full rotation: a NON-involutive generator
+            match (ar, rng.below(3)) { (2, _) | (_, 0) => sw.swap(0, 1), (_, 1) => { let t = sw[0]; sw[0] = sw[1]; sw[1] = sw[2]; sw[2] = t; } _ => sw.rotate_left(1) }
             let q = leaf(big_v, &base); let qs = leaf(big_v, &sw);
             // parents (and probes for the consequence one or two levels up)
             add(rt(6, vec![null_app()], vec![q.clone()]), &mut terms, &mut ops, &mut nadd);
@@ -368,8 +371,66 @@ pub fn gen_history(rng: &mut Rng, justified: bool) -> (Vec<Sx>, Vec<Sx>, String)
             add(rt(6, vec![null_app()], vec![t([1, 2, 5, 6])]), &mut terms, &mut ops, &mut nadd);
             "symmetry"
         }
+        7 => { // chain: several pairwise different classes, each with parents, united one after the other WITHOUT any lookup in
+               // between (all terms are inserted first): the union-find entries of the early classes end up several hops from the
+               // final representative, and the parents are merged by congruence along the way
+            let n = rng.range(4, 7) as usize;
+            let mut leaves: Vec<Sx> = vec![rt(3, vec![], vec![]), rt(4, vec![], vec![]), rt(5, vec![slot_arg(1)], vec![]),
+                                           rt(0, vec![slot_arg(1), slot_arg(2)], vec![]), rt(1, vec![slot_arg(1), slot_arg(2), slot_arg(3)], vec![]),
+                                           rt(2, vec![slot_arg(1), slot_arg(2), slot_arg(3), slot_arg(4)], vec![]),
+                                           rt(6, vec![null_app()], vec![rt(6, vec![null_app()], vec![rt(6, vec![null_app()], vec![rt(4, vec![], vec![])])])])];
+            if rng.chance(2, 3) { leaves.retain(|t| t.as_lst()[1].as_lst().len() == 2 || t.as_lst().len() > 2); }   // mostly slot-free leaves
+            rng.shuffle(&mut leaves); leaves.truncate(n.min(leaves.len()));
+            let n = leaves.len();
+            let un = |t: Sx| rt(6, vec![null_app()], vec![t]);
+            let mut hl = vec![]; let mut hp = vec![];
+            for l in &leaves { hl.push(add(l.clone(), &mut terms, &mut ops, &mut nadd)); }
+            for l in &leaves { hp.push(add(un(l.clone()), &mut terms, &mut ops, &mut nadd)); }
+            if rng.chance(1, 2) { for l in &leaves { add(un(un(l.clone())), &mut terms, &mut ops, &mut nadd); } }
+            if rng.chance(1, 2) { for i in 0..n { add(rt(7, vec![null_app(), null_app()], vec![leaves[i].clone(), leaves[(i + 1) % n].clone()]), &mut terms, &mut ops, &mut nadd); } }
+            let mut order: Vec<(usize, usize)> = match rng.below(3) {
+                0 => (0..n - 1).map(|i| (i, i + 1)).collect(),
+                1 => (1..n).map(|i| (0, i)).collect(),
+                _ => (1..n).map(|i| (rng.below(i as u64) as usize, i)).collect(),
+            };
+            if rng.chance(1, 3) { order.reverse(); }
+            for (i, j) in order { if rng.chance(1, 2) { union(hl[i], hl[j], &mut ops, &mut jn); } else { union(hl[j], hl[i], &mut ops, &mut jn); } }
+            let _ = hp;
+            skip_random = rng.chance(2, 3);
+            "chain"
+        }
+        8 => { // several disjoint symmetric slot pairs, then ONE equation that drops one slot of each pair: every generator that moves
+               // a kept slot onto a dropped one proves the kept slot redundant too.  g4(1,2,3,4)=g4(2,1,3,4), =g4(1,2,4,3), =f(2,4)
+            let g4 = |p: [u64; 4]| rt(2, p.iter().map(|s| slot_arg(*s)).collect(), vec![]);
+            let f2 = |a: u64, b: u64| rt(0, vec![slot_arg(a), slot_arg(b)], vec![]);
+            let derived = rng.chance(1, 3);
+            let t = |p: [u64; 4]| if derived { rt(7, vec![null_app(), null_app()], vec![f2(p[0], p[1]), f2(p[2], p[3])]) } else { g4(p) };
+            let mut eqs: Vec<(Sx, Sx)> = vec![];
+            if derived { eqs.push((f2(1, 2), f2(2, 1))); } else { eqs.push((t([1, 2, 3, 4]), t([2, 1, 3, 4]))); eqs.push((t([1, 2, 3, 4]), t([1, 2, 4, 3]))); }
+            let (ka, kb) = *rng.pick(&[(2u64, 4u64), (1, 3), (1, 4), (2, 3)]);
+            let red = (t([1, 2, 3, 4]), if rng.chance(1, 2) { f2(ka, kb) } else { rt(6, vec![null_app()], vec![f2(ka, kb)]) });
+            let pos = rng.below(eqs.len() as u64 + 1) as usize; eqs.insert(pos, red);
+            let first_all = rng.chance(1, 2);
+            let mut hs = vec![];
+            if first_all { for (a, b) in &eqs { hs.push((add(a.clone(), &mut terms, &mut ops, &mut nadd), add(b.clone(), &mut terms, &mut ops, &mut nadd))); } }
+            for (k, (a, b)) in eqs.iter().enumerate() {
+                let (ha, hb) = if first_all { hs[k] } else { (add(a.clone(), &mut terms, &mut ops, &mut nadd), add(b.clone(), &mut terms, &mut ops, &mut nadd)) };
+                if rng.chance(1, 2) { union(ha, hb, &mut ops, &mut jn); } else { union(hb, ha, &mut ops, &mut jn); }
+            }
+            // probes: the class should have lost all four slots
+            add(t([5, 6, 7, 8]), &mut terms, &mut ops, &mut nadd);
+            add(t([1, 2, 7, 8]), &mut terms, &mut ops, &mut nadd);
+            add(t([5, 6, 3, 4]), &mut terms, &mut ops, &mut nadd);
+            add(f2(5, 6), &mut terms, &mut ops, &mut nadd);
+            add(f2(ka, 7), &mut terms, &mut ops, &mut nadd);
+            add(rt(6, vec![null_app()], vec![t([1, 2, 3, 4])]), &mut terms, &mut ops, &mut nadd);
+            add(rt(6, vec![null_app()], vec![t([5, 6, 7, 8])]), &mut terms, &mut ops, &mut nadd);
+            skip_random = rng.chance(1, 2);
+            "redundancy"
+        }
         _ => "random",
     };
+    if skip_random { return (terms, ops, name.to_string()); }
     // random part: some terms with their subterms, some unions
     let nterms = rng.range(1, 4);
     for _ in 0..nterms {
